@@ -1,7 +1,7 @@
 (* C07 - each unit mutation of Model/T7Steps.v keeps the invariant WF under its boolean side condition.
    General (unbounded) lemmas: arbitrary graph, arbitrary new element. *)
 From Coq Require Import String List NArith Bool Arith Lia.
-From FIM Require Import Base.Str Gen.Rules Model.T7Graph Model.T7Ops Model.T7WF Model.T7Steps
+From FIM Require Import Base.Str Gen.Rules Model.T7Graph Model.T7Ops Model.T7WF Model.T7Steps Model.T7Rel
      Proofs.T7Tables Proofs.T7WFRefl Proofs.T7Frame.
 Import ListNotations.
 
@@ -70,6 +70,23 @@ Proof.
       rewrite (typ_is_stable _ _ _ _ H).
       destruct H as [H1 [H2 H3]]. apply In_first_nb in Hj as [Hj _]. rewrite (typ_is_ext _ _ _ _ (H3 _ _ Hj)). exact B.
     + intro Ht. rewrite (peers_stable _ _ _ H (HL Ht)). auto.
+  - intros Hc j r Hin. destruct H as [H1 [H2 H3]]. rewrite H1 in Hin. destruct (S3 Hc _ _ Hin) as [A B].
+    split; [exact A|]. rewrite (cls_is_ext _ _ _ _ (H3 _ _ Hin)). exact B.
+Qed.
+
+Lemma struct_stableR ep g g' m :
+  stable g g' (nid m) ->
+  (ntyp m = Some sServicePort -> ep (nid m) = false -> forall l, In l (first_nb g (nid m) Connects KLink) -> stable g g' l) ->
+  struct_Pr ep g m -> struct_Pr ep g' m.
+Proof.
+  intros H HL [S1 [S2 S3]]. split; [|split].
+  - intro Hc. rewrite (comp_owners_stable _ _ _ H). auto.
+  - intro Hc. destruct (S2 Hc) as [A [B C]]. split; [|split].
+    + rewrite (cp_owners_stable _ _ _ H). exact A.
+    + intros j Hj. rewrite (first_nb_stable _ _ _ _ _ H) in Hj. specialize (B _ Hj).
+      rewrite (typ_is_stable _ _ _ _ H).
+      destruct H as [H1 [H2 H3]]. apply In_first_nb in Hj as [Hj _]. rewrite (typ_is_ext _ _ _ _ (H3 _ _ Hj)). exact B.
+    + intros Ht Hp. rewrite (peers_stable _ _ _ H (HL Ht Hp)). auto.
   - intros Hc j r Hin. destruct H as [H1 [H2 H3]]. rewrite H1 in Hin. destruct (S3 Hc _ _ Hin) as [A B].
     split; [exact A|]. rewrite (cls_is_ext _ _ _ _ (H3 _ _ Hin)). exact B.
 Qed.
@@ -189,7 +206,20 @@ Proof.
   destruct (nname a) as [x|], (nname b) as [y|]; simpl in *; try reflexivity. rewrite H. reflexivity.
 Qed.
 
-Theorem WF_add_plain g n : WF g -> plain_ok g n = true -> WF (add_plain g n).
+Lemma WF_WFr g : WF g <-> WFr no_exempt no_exempt g.
+Proof.
+  split.
+  - intros [F V I E D St N]. constructor; auto.
+    + intros n Hn _. destruct (St n Hn) as [A [B C]]. split; [exact A|]. split; [|exact C].
+      intro Hc. destruct (B Hc) as [B1 [B2 B3]]. repeat split; auto.
+    + eapply ForallOrdPairs_impl_in; [|exact N]. intros a b _ _ H _ _. exact H.
+  - intros [F V I E D St N]. constructor; auto.
+    + intros n Hn. destruct (St n Hn eq_refl) as [A [B C]]. split; [exact A|]. split; [|exact C].
+      intro Hc. destruct (B Hc) as [B1 [B2 B3]]. repeat split; auto.
+    + unfold names_P. eapply ForallOrdPairs_impl_in; [|exact N]. intros a b _ _ H. apply H; reflexivity.
+Qed.
+
+Theorem WFr_add_plain ep g n : WFr no_exempt ep g -> plain_ok g n = true -> WFr no_exempt ep (add_plain g n).
 Proof.
   intros W H. unfold plain_ok in H. repeat (apply andb_true_iff in H as [H ?]).
   unfold fresh in H. apply negb_true_iff in H. unfold new_node_ok in H2. apply andb_true_iff in H2 as [Hf Hv].
@@ -204,16 +234,19 @@ Proof.
   - rewrite map_app. simpl. apply NoDup_snoc; [exact I | apply has_id_false_notin; exact H].
   - intros e He. destruct (E _ He) as [[na [A1 A2]] [nb [B1 B2]]]. split; [exists na | exists nb]; (split; [apply in_or_app; left; assumption | assumption]).
   - exact D.
-  - intros m Hm. apply in_app_or in Hm as [Hm|[Hm|[]]].
-    + apply (struct_stable g); auto. intros _. apply STL; assumption.
+  - intros m Hm _. apply in_app_or in Hm as [Hm|[Hm|[]]].
+    + apply (struct_stableR ep g); auto. intros _ _. apply STL; assumption.
     + subst m. split; [|split]; intro Hc; rewrite Hc in H1; simpl in H1; try discriminate.
       intros j r Hin. rewrite nbrs_add_node, (nbrs_fresh_nil _ _ E H) in Hin. destruct Hin.
-  - unfold names_P. simpl. apply ForallOrdPairs_snoc.
-    + eapply ForallOrdPairs_impl_in; [|exact N]. intros a b Ha Hb Hab. simpl in Hab.
+  - apply ForallOrdPairs_snoc.
+    + eapply ForallOrdPairs_impl_in; [|exact N]. intros a b Ha Hb Hab _ _. simpl in Hab.
       rewrite (name_clash_stable g); auto.
-    + apply Forall_forall. intros m Hm. apply name_clash_false_by_name.
+    + apply Forall_forall. intros m Hm _ _. apply name_clash_false_by_name.
       unfold name_free in H0. rewrite forallb_forall in H0. apply H0. exact Hm.
 Qed.
+
+Theorem WF_add_plain g n : WF g -> plain_ok g n = true -> WF (add_plain g n).
+Proof. intros W H. apply WF_WFr. apply WFr_add_plain; [apply WF_WFr; exact W | exact H]. Qed.
 
 (* ---- add_owned --------------------------------------------------------------------------------------- *)
 
@@ -257,25 +290,46 @@ Lemma nb_where_single g y j r (P : str -> rel -> bool) :
 Proof. intro H. unfold nb_where. rewrite H. simpl. destruct (P j r); reflexivity. Qed.
 
 
-Section AddOwnedWF.
-Variables (g : graph) (n : node) (a : str) (r : rel).
+
+Lemma owner_shape_has_idR g n a r : owner_shape_okR g n a r = true -> has_id g a = true.
+Proof.
+  unfold owner_shape_okR. destruct (ncls n); try discriminate; intro H.
+  - apply andb_true_iff in H as [_ H]. apply orb_true_iff in H as [H|H]; eapply cls_is_has_id; eauto.
+  - apply andb_true_iff in H as [_ H]. apply orb_true_iff in H as [H|H]; [apply orb_true_iff in H as [H|H]|]; eapply cls_is_has_id; eauto.
+  - apply andb_true_iff in H as [_ H]. destruct (is_type n sSubInterface).
+    + apply andb_true_iff in H as [H _]. eapply cls_is_has_id; eauto.
+    + eapply cls_is_has_id; eauto.
+Qed.
+Lemma owner_not_linkR g n a r : owner_shape_okR g n a r = true -> cls_is g a KLink = false.
+Proof.
+  unfold owner_shape_okR. destruct (ncls n); try discriminate; intro H.
+  - apply andb_true_iff in H as [_ H]. apply orb_true_iff in H as [H|H]; eapply cls_is_unique; eauto; discriminate.
+  - apply andb_true_iff in H as [_ H]. apply orb_true_iff in H as [H|H]; [apply orb_true_iff in H as [H|H]|]; eapply cls_is_unique; eauto; discriminate.
+  - apply andb_true_iff in H as [_ H]. destruct (is_type n sSubInterface).
+    + apply andb_true_iff in H as [H _]. eapply cls_is_unique; eauto; discriminate.
+    + eapply cls_is_unique; eauto; discriminate.
+Qed.
+
+Section AddOwnedR.
+Variables (ep : str -> bool) (g : graph) (n : node) (a : str) (r : rel).
 Let x := nid n.
 Let g' := add_owned g n a r.
-Hypothesis W : WF g.
-Hypothesis OK : owned_ok g n a r = true.
+Hypothesis W : WFr no_exempt ep g.
+Hypothesis OK : owned_okR g n a r = true.
+Hypothesis HSP : ncls n = KCP -> is_type n sServicePort = true -> ep (nid n) = true.
 
-Lemma aw_fresh : has_id g x = false.
-Proof. unfold owned_ok in OK. repeat (apply andb_true_iff in OK as [OK ?]). apply negb_true_iff in OK. exact OK. Qed.
+Lemma aw_freshR : has_id g x = false.
+Proof. unfold owned_okR in OK. repeat (apply andb_true_iff in OK as [OK ?]). apply negb_true_iff in OK. exact OK. Qed.
 Lemma aw_new_ok : fields_ok n = true /\ vocab_ok n = true.
-Proof. unfold owned_ok in OK. repeat (apply andb_true_iff in OK as [OK ?]). unfold new_node_ok in H1. apply andb_true_iff in H1. exact H1. Qed.
-Lemma aw_shape : owner_shape_ok g n a r = true.
-Proof. unfold owned_ok in OK. repeat (apply andb_true_iff in OK as [OK ?]). assumption. Qed.
+Proof. unfold owned_okR in OK. repeat (apply andb_true_iff in OK as [OK ?]). unfold new_node_ok in H1. apply andb_true_iff in H1. exact H1. Qed.
+Lemma aw_shape : owner_shape_okR g n a r = true.
+Proof. unfold owned_okR in OK. repeat (apply andb_true_iff in OK as [OK ?]). assumption. Qed.
 Lemma aw_sibling : sibling_free g a r (ncls n) (nname n) = true.
-Proof. unfold owned_ok in OK. repeat (apply andb_true_iff in OK as [OK ?]). assumption. Qed.
+Proof. unfold owned_okR in OK. repeat (apply andb_true_iff in OK as [OK ?]). assumption. Qed.
 Lemma aw_has_a : has_id g a = true.
-Proof. eapply owner_shape_has_id. apply aw_shape. Qed.
+Proof. eapply owner_shape_has_idR. apply aw_shape. Qed.
 
-Let Hf := aw_fresh.
+Let Hf := aw_freshR.
 Let Ha := aw_has_a.
 
 Lemma ao_a_ne_x : a <> x.
@@ -283,7 +337,7 @@ Proof. intro E. rewrite E in Ha. congruence. Qed.
 
 Lemma ao_find_old y : y <> x -> find_nodes g' y = find_nodes g y.
 Proof. intro H. unfold g', add_owned. rewrite find_nodes_add_edge. apply find_nodes_add_node_other. exact H. Qed.
-Lemma ao_find_new : find_nodes g' x = [n].
+Lemma ao_find_newR : find_nodes g' x = [n].
 Proof. unfold g', add_owned. rewrite find_nodes_add_edge. apply find_nodes_add_node_same. exact Hf. Qed.
 
 Lemma ao_nbrs y :
@@ -291,12 +345,12 @@ Lemma ao_nbrs y :
 Proof.
   unfold g', add_owned. rewrite nbrs_add_edge.
   - rewrite nbrs_add_node. reflexivity.
-  - change (no_edge g a (nid n) = true). apply no_edge_fresh; [apply (wf_edge_ends _ W) | exact Hf].
+  - change (no_edge g a (nid n) = true). apply no_edge_fresh; [apply (r_edge_ends _ _ _ W) | exact Hf].
 Qed.
 
 Lemma ao_old_nb_ne y j r' : In (j, r') (nbrs g y) -> j <> x /\ y <> x.
 Proof.
-  intro H. apply (nbrs_has_id _ _ _ _ (wf_edge_ends _ W)) in H as [H1 H2].
+  intro H. apply (nbrs_has_id _ _ _ _ (r_edge_ends _ _ _ W)) in H as [H1 H2].
   split; intro E; subst; congruence.
 Qed.
 
@@ -312,9 +366,9 @@ Qed.
 
 Lemma ao_nbrs_a : nbrs g' a = nbrs g a ++ [(x, r)].
 Proof. rewrite ao_nbrs, str_eqb_refl. reflexivity. Qed.
-Lemma ao_nbrs_x : nbrs g' x = [(a, r)].
+Lemma ao_nbrs_xR : nbrs g' x = [(a, r)].
 Proof.
-  rewrite ao_nbrs. rewrite (nbrs_fresh_nil _ _ (wf_edge_ends _ W) Hf).
+  rewrite ao_nbrs. rewrite (nbrs_fresh_nil _ _ (r_edge_ends _ _ _ W) Hf).
   assert (E1 : str_eqb a x = false) by (apply str_eqb_neq; apply ao_a_ne_x).
   rewrite E1, str_eqb_refl. reflexivity.
 Qed.
@@ -323,10 +377,10 @@ Lemma ao_cls_old y k : y <> x -> cls_is g' y k = cls_is g y k.
 Proof. intro H. apply cls_is_ext. apply ao_find_old. exact H. Qed.
 Lemma ao_typ_old y t : y <> x -> typ_is g' y t = typ_is g y t.
 Proof. intro H. apply typ_is_ext. apply ao_find_old. exact H. Qed.
-Lemma ao_cls_new k : cls_is g' x k = cls_eqb (ncls n) k.
-Proof. unfold cls_is, cls_of. rewrite ao_find_new. reflexivity. Qed.
+Lemma ao_cls_newR k : cls_is g' x k = cls_eqb (ncls n) k.
+Proof. unfold cls_is, cls_of. rewrite ao_find_newR. reflexivity. Qed.
 Lemma ao_typ_new t : typ_is g' x t = is_type n t.
-Proof. unfold typ_is, typ_of, is_type. rewrite ao_find_new. destruct (ntyp n); reflexivity. Qed.
+Proof. unfold typ_is, typ_of, is_type. rewrite ao_find_newR. destruct (ntyp n); reflexivity. Qed.
 Lemma ao_name_old y : y <> x -> name_of g' y = name_of g y.
 Proof. intro H. apply name_of_ext. apply ao_find_old. exact H. Qed.
 
@@ -338,11 +392,11 @@ Proof.
   intro H. rewrite (nb_where_app g g' a P P' [(x, r)] ao_nbrs_a H). simpl. destruct (P' x r); reflexivity.
 Qed.
 
-Lemma ao_first_nb_a r' k :
+Lemma ao_first_nb_aR r' k :
   first_nb g' a r' k = first_nb g a r' k ++ (if rel_eqb r r' && cls_eqb (ncls n) k then [x] else []).
 Proof.
   rewrite !first_nb_as_where. rewrite (ao_where_a (fun j r0 => rel_eqb r0 r' && cls_is g j k)).
-  - rewrite ao_cls_new. reflexivity.
+  - rewrite ao_cls_newR. reflexivity.
   - intros j r0 Hin. rewrite ao_cls_old; [reflexivity | apply (ao_old_nb_ne _ _ _ Hin)].
 Qed.
 
@@ -352,30 +406,30 @@ Qed.
 Lemma aw_cases :
   (ncls n = KComp /\ r = Has /\ (cls_is g a KNode = true \/ cls_is g a KComposite = true)) \/
   (ncls n = KNS /\ r = Has /\ (cls_is g a KNode = true \/ cls_is g a KComposite = true \/ cls_is g a KComp = true)) \/
-  (ncls n = KCP /\ r = Connects /\ is_type n sServicePort = false /\
+  (ncls n = KCP /\ r = Connects /\ True /\
      ((is_type n sSubInterface = true /\ cls_is g a KCP = true /\ typ_is g a sSubInterface = false) \/
       (is_type n sSubInterface = false /\ cls_is g a KNS = true))).
 Proof.
-  pose proof aw_shape as H. unfold owner_shape_ok in H. destruct (ncls n) eqn:Ec; try discriminate.
+  pose proof aw_shape as H. unfold owner_shape_okR in H. destruct (ncls n) eqn:Ec; try discriminate.
   - left. apply andb_true_iff in H as [H1 H2]. apply rel_eqb_eq in H1. apply orb_true_iff in H2. auto.
   - right; left. apply andb_true_iff in H as [H1 H2]. apply rel_eqb_eq in H1.
     apply orb_true_iff in H2 as [H2|H2]; [apply orb_true_iff in H2|]; tauto.
-  - right; right. apply andb_true_iff in H as [H H3]. apply andb_true_iff in H as [H1 H2].
-    apply rel_eqb_eq in H1. apply negb_true_iff in H2. split; [reflexivity|]. split; [exact H1|]. split; [exact H2|].
+  - right; right. apply andb_true_iff in H as [H1 H3].
+    apply rel_eqb_eq in H1. split; [reflexivity|]. split; [exact H1|]. split; [exact I|].
     destruct (is_type n sSubInterface).
     + left. apply andb_true_iff in H3 as [H3 H4]. apply negb_true_iff in H4. auto.
     + right. auto.
 Qed.
 
 Lemma aw_not_link : cls_is g a KLink = false.
-Proof. eapply owner_not_link. apply aw_shape. Qed.
+Proof. eapply owner_not_linkR. apply aw_shape. Qed.
 
 Lemma aw_stable_old m : In m (gnodes g) -> nid m <> a -> stable g g' (nid m).
 Proof. intros Hm Hne. apply ao_stable; [apply In_has_id; exact Hm | exact Hne]. Qed.
 Lemma aw_stable_link y l : In l (first_nb g y Connects KLink) -> stable g g' l.
 Proof.
   intro Hl. apply ao_stable.
-  - eapply first_nb_has_id; [apply (wf_edge_ends _ W) | exact Hl].
+  - eapply first_nb_has_id; [apply (r_edge_ends _ _ _ W) | exact Hl].
   - intro E. subst l. apply In_first_nb in Hl as [_ Hl]. rewrite aw_not_link in Hl. discriminate.
 Qed.
 
@@ -384,7 +438,7 @@ Lemma aw_comp_owners_a : comp_owners g' a = comp_owners g a.
 Proof.
   unfold comp_owners.
   rewrite (ao_where_a (fun j r0 => rel_eqb r0 Has && (cls_is g j KNode || cls_is g j KComposite))).
-  - rewrite !ao_cls_new.
+  - rewrite !ao_cls_newR.
     destruct aw_cases as [[E _]|[[E _]|[E _]]]; rewrite E; simpl; rewrite andb_false_r; apply app_nil_r.
   - intros j r0 Hin. destruct (ao_old_nb_ne _ _ _ Hin) as [Hj _].
     rewrite !(ao_cls_old j _ Hj). reflexivity.
@@ -393,7 +447,7 @@ Lemma aw_ns_owners_a : cls_is g a KNS = true -> ns_owners g' a = ns_owners g a.
 Proof.
   intro HK. unfold ns_owners.
   rewrite (ao_where_a (fun j r0 => rel_eqb r0 Has && (cls_is g j KNode || cls_is g j KComposite || cls_is g j KComp))).
-  - rewrite !ao_cls_new.
+  - rewrite !ao_cls_newR.
     destruct aw_cases as [[E [_ [H|H]]]|[[E [_ [H|[H|H]]]]|[E _]]];
       try (rewrite (cls_is_unique _ _ _ _ H) in HK; [discriminate HK | discriminate]).
     rewrite E. simpl. rewrite andb_false_r. apply app_nil_r.
@@ -405,7 +459,7 @@ Proof.
   intro HK. unfold cp_owners.
   rewrite (ao_where_a
             (fun j r0 => rel_eqb r0 Connects && (cls_is g j KNS || (typ_is g a sSubInterface && cls_is g j KCP && negb (typ_is g j sSubInterface))))).
-  - rewrite !ao_cls_new, (ao_typ_old a _ ao_a_ne_x).
+  - rewrite !ao_cls_newR, (ao_typ_old a _ ao_a_ne_x).
     destruct aw_cases as [[E [_ [H|H]]]|[[E [_ [H|[H|H]]]]|[E [_ [_ [[H1 [H2 H3]]|[H1 H2]]]]]]];
       try (rewrite (cls_is_unique _ _ _ _ H) in HK; [discriminate HK | discriminate]).
     + rewrite E, H3. simpl. rewrite andb_false_r. apply app_nil_r.
@@ -417,7 +471,7 @@ Qed.
 
 Lemma aw_links_a : first_nb g' a Connects KLink = first_nb g a Connects KLink.
 Proof.
-  rewrite ao_first_nb_a.
+  rewrite ao_first_nb_aR.
   destruct aw_cases as [[E _]|[[E _]|[E _]]]; rewrite E; simpl; rewrite andb_false_r; apply app_nil_r.
 Qed.
 Lemma aw_peers_a : peers g' a = peers g a.
@@ -429,7 +483,7 @@ Qed.
 Lemma aw_scope_old m : In m (gnodes g) -> scope_of g' m = scope_of g m.
 Proof.
   intro Hm. destruct (str_eq_dec (nid m) a) as [E|Hne]; [|apply scope_stable; apply aw_stable_old; assumption].
-  unfold scope_of. pose proof (cls_is_node g m (ncls m) (wf_ids _ W) Hm) as Hc. rewrite cls_eqb_refl, E in Hc.
+  unfold scope_of. pose proof (cls_is_node g m (ncls m) (r_ids _ _ _ W) Hm) as Hc. rewrite cls_eqb_refl, E in Hc.
   destruct (ncls m); try reflexivity; rewrite E.
   - apply aw_comp_owners_a.
   - apply aw_ns_owners_a. exact Hc.
@@ -439,7 +493,7 @@ Qed.
 (* the new element's own lists *)
 Lemma aw_scope_new : scope_of g' n = [a].
 Proof.
-  pose proof ao_nbrs_x as Hn.
+  pose proof ao_nbrs_xR as Hn.
   pose proof ao_a_ne_x as Hax.
   unfold scope_of.
   destruct aw_cases as [[E [Er [H|H]]]|[[E [Er [H|[H|H]]]]|[E [Er [_ [[H1 [H2 H3]]|[H1 H2]]]]]]]; rewrite E.
@@ -458,14 +512,14 @@ Qed.
 Lemma aw_edges : gedges g' = gedges g ++ [mkEdge a x r].
 Proof.
   unfold g', add_owned, g_add_edge. simpl. f_equal. apply filter_id. intros e He.
-  pose proof (no_edge_fresh g a x (wf_edge_ends _ W) Hf) as Hn. unfold no_edge in Hn. apply negb_true_iff in Hn.
+  pose proof (no_edge_fresh g a x (r_edge_ends _ _ _ W) Hf) as Hn. unfold no_edge in Hn. apply negb_true_iff in Hn.
   fold x. destruct (same_ends e a x) eqn:E; [|reflexivity].
   assert (existsb (fun e => same_ends e a x) (gedges g) = true) by (apply existsb_exists; eauto). congruence.
 Qed.
 
-Lemma aw_struct_new : struct_P g' n.
+Lemma aw_struct_new : struct_Pr ep g' n.
 Proof.
-  pose proof ao_nbrs_x as Hn. unfold x in Hn. pose proof ao_a_ne_x as Hax. unfold x in Hax. pose proof aw_scope_new as Hs. unfold scope_of in Hs.
+  pose proof ao_nbrs_xR as Hn. unfold x in Hn. pose proof ao_a_ne_x as Hax. unfold x in Hax. pose proof aw_scope_new as Hs. unfold scope_of in Hs.
   pose proof ao_typ_new as Htn. unfold x in Htn.
   split; [|split]; intro Hc.
   - rewrite Hc in Hs. rewrite Hs. reflexivity.
@@ -475,21 +529,21 @@ Proof.
       destruct aw_cases as [[E _]|[[E _]|[E [Er [_ [[H1 [H2 H3]]|[H1 H2]]]]]]]; [congruence | congruence | |].
       * rewrite H1, H3. discriminate.
       * rewrite (cls_is_unique _ _ _ _ H2) in Hk; [discriminate Hk | discriminate].
-    + intro Ht. destruct aw_cases as [[E _]|[[E _]|[E [_ [Hsp _]]]]]; try congruence.
-      unfold is_type in Hsp. rewrite Ht in Hsp. vm_compute in Hsp. discriminate.
+    + intros Ht Hp. exfalso. assert (X : is_type n sServicePort = true) by (unfold is_type; rewrite Ht; reflexivity).
+      rewrite (HSP Hc X) in Hp. discriminate Hp.
   - destruct aw_cases as [[E _]|[[E _]|[E _]]]; congruence.
 Qed.
 
-Lemma aw_struct_old m : In m (gnodes g) -> struct_P g' m.
+Lemma aw_struct_old m : In m (gnodes g) -> struct_Pr ep g' m.
 Proof.
-  intro Hm. pose proof (wf_struct _ W _ Hm) as [S1 [S2 S3]].
+  intro Hm. pose proof (r_struct _ _ _ W _ Hm eq_refl) as [S1 [S2 S3]].
   destruct (str_eq_dec (nid m) a) as [E|Hne].
-  - pose proof (cls_is_node g m (ncls m) (wf_ids _ W) Hm) as Hc. rewrite cls_eqb_refl, E in Hc.
+  - pose proof (cls_is_node g m (ncls m) (r_ids _ _ _ W) Hm) as Hc. rewrite cls_eqb_refl, E in Hc.
     split; [|split]; intro Hk; rewrite E.
     + rewrite aw_comp_owners_a. rewrite <- E. auto.
     + rewrite Hk in Hc. destruct (S2 Hk) as [A [B C]]. rewrite E in A, B, C. split; [|split].
       * rewrite (aw_cp_owners_a Hc). exact A.
-      * intros j Hj. rewrite ao_first_nb_a in Hj. apply in_app_or in Hj as [Hj|Hj].
+      * intros j Hj. rewrite ao_first_nb_aR in Hj. apply in_app_or in Hj as [Hj|Hj].
         -- specialize (B _ Hj). apply In_first_nb in Hj as [Hj _]. destruct (ao_old_nb_ne _ _ _ Hj) as [Hjx _].
            rewrite (ao_typ_old a _ ao_a_ne_x), (ao_typ_old j _ Hjx). exact B.
         -- destruct (rel_eqb r Connects && cls_eqb (ncls n) KCP) eqn:Eb; [|destruct Hj].
@@ -499,9 +553,9 @@ Proof.
            ++ rewrite En in Eb. simpl in Eb. rewrite andb_false_r in Eb. discriminate.
            ++ rewrite H1, H3. discriminate.
            ++ rewrite (cls_is_unique _ _ _ _ H2) in Hc; [discriminate Hc | discriminate].
-      * intro Ht. rewrite aw_peers_a. auto.
+      * intros Ht Hp. rewrite aw_peers_a. auto.
     + rewrite Hk in Hc. rewrite aw_not_link in Hc. discriminate.
-  - apply (struct_stable g); [apply aw_stable_old; assumption | intros _ l Hl; eapply aw_stable_link; eauto | split; auto].
+  - apply (struct_stableR ep g); [apply aw_stable_old; assumption | intros _ _ l Hl; eapply aw_stable_link; eauto | split; auto].
 Qed.
 
 Lemma aw_sibling_name m :
@@ -517,63 +571,98 @@ Proof.
           apply In_nb_where in Ha' as [r0 [H1 H2]]; exists r0; (split; [exact H1|]);
           apply andb_true_iff in H2 as [H2 _]; apply rel_eqb_eq in H2; congruence. }
       destruct Hi as [r0 [H1 H2]]. subst r0. exact H1.
-    - rewrite <- Hc. rewrite (cls_is_node g m _ (wf_ids _ W) Hm). apply cls_eqb_refl. }
-  specialize (SF _ Hin). apply negb_true_iff in SF. rewrite (name_of_node g m (wf_ids _ W) Hm) in SF. exact SF.
+    - rewrite <- Hc. rewrite (cls_is_node g m _ (r_ids _ _ _ W) Hm). apply cls_eqb_refl. }
+  specialize (SF _ Hin). apply negb_true_iff in SF. rewrite (name_of_node g m (r_ids _ _ _ W) Hm) in SF. exact SF.
 Qed.
 
-Theorem WF_add_owned_sec : WF g'.
+Theorem WFr_add_owned_sec : WFr no_exempt ep g'.
 Proof.
   destruct aw_new_ok as [Hfo Hvo].
   constructor.
   - intros m Hm. unfold g', add_owned in Hm. simpl in Hm. apply in_app_or in Hm as [Hm|[Hm|[]]];
-      [apply (wf_fields _ W); assumption | subst; apply fields_ok_P; exact Hfo].
+      [apply (r_fields _ _ _ W); assumption | subst; apply fields_ok_P; exact Hfo].
   - intros m Hm. unfold g', add_owned in Hm. simpl in Hm. apply in_app_or in Hm as [Hm|[Hm|[]]];
-      [apply (wf_vocab _ W); assumption | subst; apply vocab_ok_P; exact Hvo].
-  - unfold g', add_owned. simpl. rewrite map_app. simpl. apply NoDup_snoc; [apply (wf_ids _ W) | apply has_id_false_notin; exact Hf].
+      [apply (r_vocab _ _ _ W); assumption | subst; apply vocab_ok_P; exact Hvo].
+  - unfold g', add_owned. simpl. rewrite map_app. simpl. apply NoDup_snoc; [apply (r_ids _ _ _ W) | apply has_id_false_notin; exact Hf].
   - intros e He. rewrite aw_edges in He.
     assert (Hsub : forall y, has_id g y = true -> exists n0, In n0 (gnodes g') /\ nid n0 = y).
     { intros y Hy. apply has_id_In in Hy as [n0 [A B]]. exists n0. split; [|exact B]. unfold g', add_owned. simpl. apply in_or_app. left. exact A. }
     apply in_app_or in He as [He|[He|[]]].
-    + destruct (wf_edge_ends _ W _ He) as [A B]. split; apply Hsub; apply has_id_In; assumption.
+    + destruct (r_edge_ends _ _ _ W _ He) as [A B]. split; apply Hsub; apply has_id_In; assumption.
     + subst e. simpl. split; [apply Hsub; exact Ha|]. exists n. split; [|reflexivity]. unfold g', add_owned. simpl. apply in_or_app. right. left. reflexivity.
-  - rewrite aw_edges. apply ForallOrdPairs_snoc; [apply (wf_edges_distinct _ W)|].
+  - rewrite aw_edges. apply ForallOrdPairs_snoc; [apply (r_edges_distinct _ _ _ W)|].
     apply Forall_forall. intros e He. simpl. unfold same_ends. simpl.
-    destruct (wf_edge_ends _ W _ He) as [A B]. apply has_id_In in A. apply has_id_In in B.
+    destruct (r_edge_ends _ _ _ W _ He) as [A B]. apply has_id_In in A. apply has_id_In in B.
     assert (E1 : str_eqb x (eb e) = false) by (apply str_eqb_neq; intro E; rewrite <- E in B; fold x in Hf; congruence).
     assert (E2 : str_eqb x (ea e) = false) by (apply str_eqb_neq; intro E; rewrite <- E in A; fold x in Hf; congruence).
     rewrite E1, E2, !andb_false_r. reflexivity.
-  - intros m Hm. unfold g', add_owned in Hm. simpl in Hm. apply in_app_or in Hm as [Hm|[Hm|[]]].
+  - intros m Hm _. unfold g', add_owned in Hm. simpl in Hm. apply in_app_or in Hm as [Hm|[Hm|[]]].
     + apply aw_struct_old. exact Hm.
     + subst m. apply aw_struct_new.
-  - unfold names_P. change (gnodes g') with (gnodes g ++ [n]). apply ForallOrdPairs_snoc.
-    + eapply ForallOrdPairs_impl_in; [|apply (wf_names _ W)]. intros m1 m2 H1 H2 Hc. simpl in Hc.
+  - change (gnodes g') with (gnodes g ++ [n]). apply ForallOrdPairs_snoc.
+    + eapply ForallOrdPairs_impl_in; [|apply (r_names _ _ _ W)]. intros m1 m2 H1 H2 Hc _ _. simpl in Hc. specialize (Hc eq_refl eq_refl).
       unfold name_clash in *. rewrite (aw_scope_old _ H1), (aw_scope_old _ H2). exact Hc.
-    + apply Forall_forall. intros m Hm. unfold name_clash. rewrite (aw_scope_old _ Hm), aw_scope_new.
+    + apply Forall_forall. intros m Hm _ _. unfold name_clash. rewrite (aw_scope_old _ Hm), aw_scope_new.
       destruct (cls_eqb (ncls m) (ncls n)) eqn:Ec; [|reflexivity]. simpl. apply cls_eqb_eq in Ec.
       destruct (list_eqb str_eqb (scope_of g m) [a]) eqn:Es; [|apply andb_false_r].
       apply list_eqb_str_eq in Es. pose proof (aw_sibling_name m Hm Ec Es) as Hn.
       destruct (nname m), (nname n); simpl in *; try reflexivity. rewrite Hn. reflexivity.
 Qed.
 
-End AddOwnedWF.
+End AddOwnedR.
+
+
+Lemma owned_ok_R g n a r : owned_ok g n a r = true -> owned_okR g n a r = true /\ (ncls n = KCP -> is_type n sServicePort = false).
+Proof.
+  unfold owned_ok, owned_okR. intro H. apply andb_true_iff in H as [H Hs]. apply andb_true_iff in H as [H Hsh]. apply andb_true_iff in H as [Hf Hn].
+  rewrite Hf, Hn, Hs. simpl. rewrite andb_true_r.
+  unfold owner_shape_ok in Hsh. unfold owner_shape_okR. destruct (ncls n); try discriminate Hsh.
+  - rewrite Hsh. split; [reflexivity | intro X; discriminate X].
+  - rewrite Hsh. split; [reflexivity | intro X; discriminate X].
+  - apply andb_true_iff in Hsh as [H1 H3]. apply andb_true_iff in H1 as [H1 H4]. apply negb_true_iff in H4.
+    rewrite H1, H3. auto.
+Qed.
+
+Theorem WFr_add_owned ep g n a r :
+  WFr no_exempt ep g -> owned_okR g n a r = true -> (ncls n = KCP -> is_type n sServicePort = true -> ep (nid n) = true) ->
+  WFr no_exempt ep (add_owned g n a r).
+Proof. intros W OK H. exact (WFr_add_owned_sec ep g n a r W OK H). Qed.
 
 Theorem WF_add_owned g n a r : WF g -> owned_ok g n a r = true -> WF (add_owned g n a r).
-Proof. intros W OK. exact (WF_add_owned_sec g n a r W OK). Qed.
+Proof.
+  intros W OK. destruct (owned_ok_R _ _ _ _ OK) as [OKR NSP]. apply WF_WFr.
+  apply WFr_add_owned; [apply WF_WFr; exact W | exact OKR | intros C X; rewrite (NSP C) in X; discriminate X].
+Qed.
+
+(* the frame facts of add_owned, in the form the API proofs use them *)
+Lemma aw_fresh g n a r : owned_ok g n a r = true -> has_id g (nid n) = false.
+Proof. intro OK. destruct (owned_ok_R _ _ _ _ OK) as [OKR _]. exact (aw_freshR g n a r OKR). Qed.
+Lemma ao_cls_new g n a r : owned_ok g n a r = true -> forall k, cls_is (add_owned g n a r) (nid n) k = cls_eqb (ncls n) k.
+Proof. intro OK. destruct (owned_ok_R _ _ _ _ OK) as [OKR _]. exact (ao_cls_newR g n a r OKR). Qed.
+Lemma ao_find_new g n a r : owned_ok g n a r = true -> find_nodes (add_owned g n a r) (nid n) = [n].
+Proof. intro OK. destruct (owned_ok_R _ _ _ _ OK) as [OKR _]. exact (ao_find_newR g n a r OKR). Qed.
+Lemma ao_first_nb_a g n a r : WF g -> owned_ok g n a r = true -> forall r' k,
+  first_nb (add_owned g n a r) a r' k = first_nb g a r' k ++ (if rel_eqb r r' && cls_eqb (ncls n) k then [nid n] else []).
+Proof. intros W OK. destruct (owned_ok_R _ _ _ _ OK) as [OKR _]. apply WF_WFr in W. exact (ao_first_nb_aR no_exempt g n a r W OKR). Qed.
+Lemma ao_nbrs_x g n a r : WF g -> owned_ok g n a r = true -> nbrs (add_owned g n a r) (nid n) = [(a, r)].
+Proof. intros W OK. destruct (owned_ok_R _ _ _ _ OK) as [OKR _]. apply WF_WFr in W. exact (ao_nbrs_xR no_exempt g n a r W OKR). Qed.
+
 
 (* ---- add_link_edge ----------------------------------------------------------------------------------- *)
 Section AddLinkEdge.
-Variables (g : graph) (l i : str).
+Variables (ep : str -> bool) (g : graph) (l i : str).
 Let g' := add_link_edge g l i.
-Hypothesis W : WF g.
-Hypothesis OK : link_edge_ok g l i = true.
+Hypothesis W : WFr no_exempt ep g.
+Hypothesis OK : link_edge_okR ep g l i = true.
 
 Lemma le_parts :
-  cls_is g l KLink = true /\ cls_is g i KCP = true /\ typ_is g i sServicePort = false /\ no_edge g l i = true /\
-  (forall y, In y (first_nb g l Connects KCP) -> typ_is g y sServicePort = false).
+  cls_is g l KLink = true /\ cls_is g i KCP = true /\ (typ_is g i sServicePort = true -> ep i = true) /\ no_edge g l i = true /\
+  (forall y, In y (first_nb g l Connects KCP) -> typ_is g y sServicePort = true -> ep y = true).
 Proof.
-  unfold link_edge_ok in OK. repeat (apply andb_true_iff in OK as [OK ?]).
-  apply negb_true_iff in H1. repeat split; auto.
-  intros y Hy. rewrite forallb_forall in H. apply negb_true_iff. auto.
+  unfold link_edge_okR in OK. repeat (apply andb_true_iff in OK as [OK ?]).
+  repeat split; auto.
+  - intro T. rewrite T in H1. simpl in H1. exact H1.
+  - intros y Hy T. rewrite forallb_forall in H. specialize (H y Hy). rewrite T in H. simpl in H. exact H.
 Qed.
 
 Lemma le_l_ne_i : l <> i.
@@ -634,7 +723,7 @@ Proof.
     destruct (find_nodes g l) as [|m ms] eqn:F; [discriminate|].
     assert (Hm : In m (gnodes g)).
     { assert (In m (find_nodes g l)) by (rewrite F; left; reflexivity). unfold find_nodes in H. apply filter_In in H. tauto. }
-    apply cls_eqb_eq in A. pose proof (wf_vocab _ W _ Hm) as V. apply vocab_ok_P in V.
+    apply cls_eqb_eq in A. pose proof (r_vocab _ _ _ W _ Hm) as V. apply vocab_ok_P in V.
     unfold vocab_ok, vocab_ok_in in V. rewrite A in V. simpl in V.
     destruct (ntyp m) as [t|]; [|discriminate]. apply str_eqb_eq in E. subst t.
     revert V. vm_compute. discriminate.
@@ -664,24 +753,25 @@ Qed.
 Lemma le_scope m : scope_of g' m = scope_of g m.
 Proof. unfold scope_of. destruct (ncls m); auto using le_comp_owners, le_ns_owners, le_cp_owners. Qed.
 
-Lemma le_struct m : In m (gnodes g) -> struct_P g' m.
+Lemma le_struct m : In m (gnodes g) -> struct_Pr ep g' m.
 Proof.
-  intro Hm. pose proof (wf_struct _ W _ Hm) as [S1 [S2 S3]]. destruct le_parts as [A [B [C [NE SP]]]].
-  pose proof (cls_is_node g m (ncls m) (wf_ids _ W) Hm) as Hc. rewrite cls_eqb_refl in Hc.
+  intro Hm. pose proof (r_struct _ _ _ W _ Hm eq_refl) as [S1 [S2 S3]]. destruct le_parts as [A [B [C [NE SP]]]].
+  pose proof (cls_is_node g m (ncls m) (r_ids _ _ _ W) Hm) as Hc. rewrite cls_eqb_refl in Hc.
   split; [|split]; intro Hk.
   - rewrite le_comp_owners. auto.
   - rewrite Hk in Hc. destruct (S2 Hk) as [P1 [P2 P3]].
     assert (Hml : nid m <> l) by (intro E; rewrite E in Hc; rewrite (cls_is_unique _ _ _ _ A) in Hc; [discriminate Hc | discriminate]).
     split; [rewrite le_cp_owners; exact P1|]. split.
     + intros j Hj. rewrite (le_first_cp _ Hml) in Hj. rewrite !le_typ. auto.
-    + intro Ht. assert (Hmi : nid m <> i).
-      { intro E. rewrite <- E in C. rewrite (typ_is_node g m _ (wf_ids _ W) Hm), Ht in C. vm_compute in C. discriminate. }
-      unfold peers. rewrite (le_first_link _ Hmi). specialize (P3 Ht). unfold peers in P3. rewrite <- P3. f_equal.
+    + intros Ht Hp. assert (Tm : typ_is g (nid m) sServicePort = true) by (rewrite (typ_is_node g m _ (r_ids _ _ _ W) Hm), Ht; reflexivity).
+      assert (Hmi : nid m <> i).
+      { intro E. rewrite E in Tm, Hp. rewrite (C Tm) in Hp. discriminate Hp. }
+      unfold peers. rewrite (le_first_link _ Hmi). specialize (P3 Ht Hp). unfold peers in P3. rewrite <- P3. f_equal.
       apply flat_map_ext_in. intros l' Hl'. destruct (str_eq_dec l' l) as [E|Hne].
       * (* the service port would be an end of l: excluded by the side condition *)
         subst l'. exfalso. apply In_first_nb in Hl' as [Hl' _]. apply nbrs_sym in Hl'.
         assert (Hin : In (nid m) (first_nb g l Connects KCP)) by (apply In_first_nb; split; [exact Hl' | exact Hc]).
-        specialize (SP _ Hin). rewrite (typ_is_node g m _ (wf_ids _ W) Hm), Ht in SP. vm_compute in SP. discriminate.
+        rewrite (SP _ Hin Tm) in Hp. discriminate Hp.
       * rewrite (le_first_cp _ Hne). reflexivity.
   - intros j r Hin. rewrite Hk in Hc. rewrite le_nbrs in Hin. apply in_app_or in Hin as [Hin|Hin]; [apply (S3 Hk); exact Hin|].
     destruct (str_eqb l (nid m)) eqn:E1.
@@ -690,7 +780,7 @@ Proof.
       apply str_eqb_eq in E2. rewrite <- E2 in Hc. rewrite (cls_is_unique _ _ _ _ B) in Hc; [discriminate Hc | discriminate].
 Qed.
 
-Theorem WF_add_link_edge_sec : WF g'.
+Theorem WFr_add_link_edge_sec : WFr no_exempt ep g'.
 Proof.
   destruct le_parts as [A [B [C [NE SP]]]].
   assert (EG : gedges g' = gedges g ++ [mkEdge l i Connects]).
@@ -698,12 +788,12 @@ Proof.
     unfold no_edge in NE. apply negb_true_iff in NE. destruct (same_ends e l i) eqn:E; [|reflexivity].
     assert (existsb (fun e => same_ends e l i) (gedges g) = true) by (apply existsb_exists; eauto). congruence. }
   constructor.
-  - apply (wf_fields _ W).
-  - apply (wf_vocab _ W).
-  - apply (wf_ids _ W).
-  - intros e He. rewrite EG in He. apply in_app_or in He as [He|[He|[]]]; [apply (wf_edge_ends _ W); exact He|].
+  - apply (r_fields _ _ _ W).
+  - apply (r_vocab _ _ _ W).
+  - apply (r_ids _ _ _ W).
+  - intros e He. rewrite EG in He. apply in_app_or in He as [He|[He|[]]]; [apply (r_edge_ends _ _ _ W); exact He|].
     subst e. simpl. split; apply has_id_In; eapply cls_is_has_id; eauto.
-  - rewrite EG. apply ForallOrdPairs_snoc; [apply (wf_edges_distinct _ W)|].
+  - rewrite EG. apply ForallOrdPairs_snoc; [apply (r_edges_distinct _ _ _ W)|].
     apply Forall_forall. intros e He. simpl.
     unfold no_edge in NE. apply negb_true_iff in NE.
     destruct (same_ends (mkEdge l i Connects) (ea e) (eb e)) eqn:E; [|reflexivity]. exfalso.
@@ -711,15 +801,27 @@ Proof.
     { unfold same_ends in *. simpl in E. rewrite (str_eqb_sym (ea e) l), (str_eqb_sym (eb e) i), (str_eqb_sym (ea e) i), (str_eqb_sym (eb e) l).
       apply orb_true_iff in E as [E|E]; apply andb_true_iff in E as [E1 E2]; rewrite E1, E2; simpl; [reflexivity | apply orb_true_r]. }
     assert (existsb (fun e => same_ends e l i) (gedges g) = true) by (apply existsb_exists; eauto). congruence.
-  - intros m Hm. apply le_struct. exact Hm.
-  - unfold names_P. change (gnodes g') with (gnodes g).
-    eapply ForallOrdPairs_impl_in; [|apply (wf_names _ W)]. intros a b _ _ Hc. simpl in Hc.
+  - intros m Hm _. apply le_struct. exact Hm.
+  - change (gnodes g') with (gnodes g).
+    eapply ForallOrdPairs_impl_in; [|apply (r_names _ _ _ W)]. intros a b _ _ Hc _ _. simpl in Hc. specialize (Hc eq_refl eq_refl).
     unfold name_clash in *. rewrite !le_scope. exact Hc.
 Qed.
 End AddLinkEdge.
 
+
+Theorem WFr_add_link_edge ep g l i : WFr no_exempt ep g -> link_edge_okR ep g l i = true -> WFr no_exempt ep (add_link_edge g l i).
+Proof. intros W OK. exact (WFr_add_link_edge_sec ep g l i W OK). Qed.
+
+Lemma link_edge_ok_R g l i : link_edge_ok g l i = true -> link_edge_okR no_exempt g l i = true.
+Proof.
+  unfold link_edge_ok, link_edge_okR, no_exempt. intro H. repeat (apply andb_true_iff in H as [H ?]).
+  rewrite H, H3, H2, H1. simpl.
+  apply forallb_forall. intros y Hy. rewrite forallb_forall in H0. rewrite (H0 y Hy). reflexivity.
+Qed.
+
 Theorem WF_add_link_edge g l i : WF g -> link_edge_ok g l i = true -> WF (add_link_edge g l i).
-Proof. intros W OK. exact (WF_add_link_edge_sec g l i W OK). Qed.
+Proof. intros W OK. apply WF_WFr. apply WFr_add_link_edge; [apply WF_WFr; exact W | apply link_edge_ok_R; exact OK]. Qed.
+
 
 (* ---- remove_set ------------------------------------------------------------------------------------- *)
 Section RemoveSet.
